@@ -64,9 +64,32 @@ def recovery(ctx):
             # (3) a parsed line always reaches the insert (no silent drop): from_str Ok => insert or error return
             if r.status == "holds":
                 fs = oblig.events(E, r"serde_json::from_str")
-                if not fs:
+                nx = {e.layer: e for e in E.events if re.search(r"Lines<.*> as Iterator>::next$", e.func)}
+                if not fs or not nx:
                     r.status = "inconclusive"
-                    r.notes.append("anchor not found: serde_json::from_str::<WalEntry>")
+                    r.notes.append("anchor not found: serde_json::from_str::<WalEntry> / the loop over the file's lines")
+                for f_ in fs:
+                    if r.status != "holds":
+                        break
+                    d = z3.BitVec(f"disc({f_.site})", 64)
+                    nxt = nx.get(f_.layer + 1)
+                    mine = [i_ for i_ in ins if i_.layer == f_.layer]
+                    inserted = z3.Or([i_.reach for i_ in mine]) if mine else z3.BoolVal(False)
+                    if nxt is None:
+                        continue
+                    # a line that parses is not dropped on the way to the next line
+                    res, model = q.check(f_.reach, d == 0, nxt.reach, z3.Not(inserted), domain=E.domain)
+                    r.queries += 1
+                    if res == z3.sat:
+                        oblig.violated(r, E, q, f_, model, "a WAL line that parses is skipped without being inserted into the memtable")
+                        break
+                    # a line that does not parse does not end the replay of the file
+                    res, model = q.check(f_.reach, d == 1, z3.Not(nxt.reach), domain=E.domain)
+                    r.queries += 1
+                    if res == z3.sat:
+                        oblig.violated(r, E, q, f_, model, "an unparsable WAL line stops the replay of the file: acknowledged entries on later "
+                                                           "lines (appended after a restart re-opened the log) are not recovered")
+                        break
     # ---- recover: files in sorted order, every file replayed, error propagated
     b2 = Builder(ctx, "wal-wal_recovery-{impl#0}-list_sorted_log_files.", "WalRecovery::list_sorted_log_files", {})
     E2 = b2.E
